@@ -54,6 +54,7 @@ func runC03(c *Config, r *Report) {
 		x.r2x13()
 	}
 	c12R32(ic, r, "R03.22")
+	c03R23(ic, r)
 	c03R2(ic, r)
 	c03R3(ic, r)
 	c03R4(ic, r)
